@@ -3,7 +3,7 @@
 import os, shutil, json, re, sys
 SPEC = json.load(open('/verif/tools/seeded_spec.json'))
 for s in SPEC:
-    src = f"/tmp/mut-{s['from'][0]}/OUT"; k = s['from'][1]
+    src = f"/tmp/mut-{s['from'][0]}/" + s.get("outdir", "OUT"); k = s['from'][1]
     d = f"/verif/seeded/{s['id']}"
     os.makedirs(d, exist_ok=True)
     p = f"{src}/patch{k}.rebased.diff"
